@@ -171,10 +171,10 @@ Proof.
     destruct (memnat j used || clash mi acc) eqn:Esk; [destruct Hin|].
     apply orb_false_iff in Esk. destruct Esk as [Eu _].
     assert (Hj : ~ In j used) by (rewrite <- memnat_spec; congruence).
-    apply in_percc_of in Ihm. destruct Ihm as (hc & Ej & _ & Imi).
+    apply in_percc_of in Ihm. destruct Ihm as (hc & Ej & Hle & Imi).
     assert (Ihc : In hc (comps H)) by (eapply nth_error_In; eauto).
     assert (Ipc : In pc (comps P)) by (apply Hrem; left; reflexivity).
-    destruct (proj2 Hor hc pc Ihc Ipc) as (Hsound & _ & _).
+    destruct (proj2 Hor hc pc Ihc Ipc Hle) as (Hsound & _ & _).
     destruct (Hsound mi Imi) as (A & B & C & D & E).
     destruct (comps_class P HwfP pc Ipc) as (_ & _ & _ & Hclass).
     destruct (comps_class H HwfH hc Ihc) as (_ & _ & _ & HclassH).
@@ -280,15 +280,16 @@ Proof.
         apply in_map_fst in I. destruct I as (h & I). exists h. apply in_restrict. auto.
     - intros p h I. split; [eapply Himg; eauto|]. apply in_restrict in I. apply (D p h). tauto.
     - intros p h p' h' b I I'. apply in_restrict in I. apply in_restrict in I'. apply E; tauto. }
-  destruct (proj2 Hor hc pc Ihc Ipc) as (_ & Hcomplete & _).
+  assert (Hle : length pc <= length hc).
+  { destruct Hmo as (A' & B' & C' & D' & _).
+    assert (Hl : length pc = length (map fst (restrict m pc))).
+    { apply Permutation_length. apply NoDup_Permutation; auto. intros p. symmetry. apply B'. }
+    rewrite Hl, map_length, <- (map_length snd). apply NoDup_incl_length; [exact C'|].
+    intros h Ih. apply in_map_snd in Ih. destruct Ih as (p & Ih). eapply Himg; eauto. }
+  destruct (proj2 Hor hc pc Ihc Ipc Hle) as (_ & Hcomplete & _).
   destruct (Hcomplete _ Hmo) as (mi & Imi & Hperm).
   exists (j, mi). split; [|split; [exact Hperm|exists hc, p0, h0; auto]].
-  apply in_percc_of. exists hc. split; [exact Ej|]. split; [|exact Imi].
-  destruct Hmo as (A' & B' & C' & D' & _).
-  assert (Hl : length pc = length (map fst (restrict m pc))).
-  { apply Permutation_length. apply NoDup_Permutation; auto. intros p. symmetry. apply B'. }
-  rewrite Hl, map_length, <- (map_length snd). apply NoDup_incl_length; [exact C'|].
-  intros h Ih. apply in_map_snd in Ih. destruct Ih as (p & Ih). eapply Himg; eauto.
+  apply in_percc_of. exists hc. split; [exact Ej|]. split; [exact Hle|exact Imi].
 Qed.
 
 Lemma chosen_keys m pc hm p : chosen m pc hm -> In p (keys hm) -> In p pc.
